@@ -230,6 +230,10 @@ class Report:
         self.cov = {}
         self.assumptions = []
         self.known = [k for k in known_findings() if k.get("property") == pid and k.get("status") == "known"]
+        os.makedirs(OUT, exist_ok=True)
+        for f in os.listdir(OUT):                       # replay files of earlier runs would be misleading
+            if f.startswith("replay-%s-" % pid):
+                os.remove(os.path.join(OUT, f))
 
     def violation(self, signature, what, replay):
         """signature: short machine string naming the failing input class / call site."""
